@@ -17,11 +17,11 @@ CHECKS = {
                 note=TB),
     "C13": dict(level="model_checking", ref="3 C13",
                 tech="TLC trace validation of every device x every (mnemonic, addressing form) against Devices!Unavailable and AvrIsa",
-                text="All devices of the public table x all mnemonic/addressing forms; TLC requires error iff the device's documented flags take the form away, and otherwise exactly the words of the no-device encoding (one-word lds/sts on the reduced core).",
+                text="All devices of the public table x all mnemonic/addressing forms; TLC requires error iff the device's documented flags take the form away, and otherwise exactly the words of the no-device encoding (one-word lds/sts on the reduced core); operands at both ends of every class; plus whole programs per device and form (other forms of the same mnemonic first, then the form, a label, a jump to it and its value) judged by Assembler!Run.",
                 note=TB + "; flag semantics as documented on the DisabledOptions type; ldd/std on Tiny1x/Avr8l via ld/st mnemonics excluded as unspecified"),
     "C02": dict(level="model_checking", ref="3 C02",
                 tech="TLC trace validation of whole-program builds against Assembler.tla (layout/emit state machine)",
-                text="All item sequences up to length 3 (thorough 4) over a 14-symbol layout alphabet x 3 device classes, plus seeded random programs of 5-60 items over 5 devices, each with a .dw table of its labels, are built by the real code; TLC recomputes every build with Assembler!Run (one location counter per segment type, .org gaps zero-filled, labels at the next item) and accepts only identical images, sizes and RAM usage.",
+                text="All item sequences up to length 3 (thorough 4) over a 14-symbol layout alphabet x 3 device classes, plus seeded random programs of 5-60 items over 5 devices, each with a .dw table of its labels, are built by the real code; TLC recomputes every build with Assembler!Run (one location counter per segment type, .org gaps zero-filled, labels at the next item) and accepts only identical images, sizes and RAM usage. MC_Layout model-checks the layout theorems (LandsWhereAssigned, NoOverlap, GapsAreZero, LabelAtNextItem, OrgHonoured) on the specification for all programs up to 4 (thorough 5) items. The hook events of the layout/emission passes (feature verif) of a sample of these builds, of the repository's fixtures, of every shipped part file and of the repository's own test suite are replayed step by step through Trace_Pipeline.",
                 note=TB + "; .org not followed by a space-occupying item is not generated (property silent)"),
     "C03": dict(level="model_checking", ref="3 C03",
                 tech="TLC trace validation of branch/jump placements against Assembler.tla + AvrIsa (Rel7/Rel12 legality and encoding)",
@@ -41,7 +41,7 @@ CHECKS = {
                 note=TB + "; blank lines in the file are ignored"),
     "C08": dict(level="model_checking", ref="3 C08",
                 tech="TLC trace validation of all well-formed conditional structures against the conditional stack of Assembler.tla",
-                text="Every well-formed nesting structure (if / elif* / else? / endif, nesting <= 3) up to 7 lines (thorough 9), instantiated with all-true, all-false and seeded truth assignments over literal, .equ and .define conditions, with marker instructions, messages, garbage text, .define and label definitions in the branches; TLC's reference (stack with taken flag) must give the same image, messages and error status.",
+                text="Every well-formed nesting structure (if / elif* / else? / endif, nesting <= 3) up to 7 lines (thorough 9), instantiated with all-true, all-false and seeded truth assignments over literal, .equ and .define conditions, with marker instructions, messages, garbage text, .define and label definitions in the branches; TLC's reference (stack with taken flag) must give the same image, messages and error status; conditions with negative and huge values and the '#' spelling of the directives included. MC_Cond model-checks the reference itself for all well-formed programs up to 6 (thorough 8) lines: the stack machine selects exactly the lines a declarative, stack-free reading of the property selects, filtering preserves the result, and the reader without a taken flag (the implementation before its fix) violates it.",
                 note=TB + "; ill-formed chains not generated"),
     "C09": dict(level="model_checking", ref="3 C09",
                 tech="TLC trace validation of macro programs against the syntax-tree substitution of Assembler.tla",
@@ -69,11 +69,11 @@ CHECKS = {
                 note=TB + "; messages from macro bodies and lines inside included files excluded"),
     "C16": dict(level="exploration", ref="3 C16",
                 tech="bounded-exhaustive product of heads x operand dictionary defined by Api.tla, supervised execution, TLC (Trace_Api) checks completeness and accepts only ok/err",
-                text="Every single-line program `head op, op(, op)` over the 158 heads and the 46-entry operand dictionary that Api.tla defines (exported by TLC; ~3.4e5 programs with up to two operands in quick, 1.5e7 with three in thorough) plus token soups and seeded byte/token/line mutations of valid programs up to 64 KiB are built in supervised worker processes (watchdog 10 s, 2 GiB address space); TLC checks that every group of the enumeration is complete and that every outcome is ok or err. Time, memory and crashes are observed by the operating system, not modelled - hence exploration, not model checking.",
+                text="Every single-line program `head op, op(, op)` over the 158 heads and the 46-entry operand dictionary that Api.tla defines (exported by TLC; ~3.4e5 programs with up to two operands in quick, 1.5e7 with three in thorough) plus token soups and seeded byte/token/line mutations of valid programs up to 64 KiB are built in supervised worker processes (watchdog 10 s, 2 GiB address space); every head with at most one operand is also put into eleven contexts (skipped branch, assembled branch, .elif position, macro body, other segments, small devices), and resource hogs are built under small devices in a 48 MiB address space. TLC checks that every group of the enumeration is complete and that every outcome is ok or err. Time, memory and crashes are observed by the operating system, not modelled - hence exploration, not model checking.",
                 note=TB + "; harness profile release + overflow-checks"),
     "C17": dict(level="model_checking", ref="3 C17",
                 tech="TLC replay of recorded build sessions (sequential histories, TLC-generated stage interleavings with real threads, unsynchronised threads, fresh processes) through the actions of Api.tla; MC_Api",
-                text="12 programs sharing macro, symbol, alias and device names (valid, failing in each stage, with messages): every sequential history up to length 3 (thorough 4), all 70 TLC-generated schedules of two stage-gated builds x ordered pairs, seeded schedules of three builds, 16 unsynchronised threads x 200 builds, one history in 4 fresh processes. Every session is replayed through Start/Stage/End of Api.tla, where End is only enabled with the result the program has alone in a fresh process. MC_Api model-checks Independent and shows that a variant with a shared device selection violates it.",
+                text="24 programs sharing macro, symbol, alias and device names (valid, failing in each stage, failing/valid pairs using the same names, more than ten macro arguments, many names of every kind): every sequential history up to length 3 (thorough 4), all 70 TLC-generated schedules of two stage-gated builds x ordered pairs, seeded schedules of three builds, 16 unsynchronised threads x 200 builds (and 16 concurrent builds with 1.1e5 macro calls each), one history in 4 fresh processes, every history of three file trees whose include names are equal but found through different directories. Every session is replayed through Start/Stage/End of Api.tla, where End is only enabled with the result the program has alone in a fresh process. MC_Api model-checks Independent and shows that a variant with a shared device selection violates it.",
                 note=TB + "; results compared by digest; gating through the public stage functions"),
     "C18": dict(level="model_checking", ref="3 C18",
                 tech="TLC trace validation of recorded runs of the real binary (argv, exit status, files before/after, lexed HEX records) against Cli!Allowed with the IHex reader",
